@@ -10,7 +10,11 @@
   theorem holds for all of them.
 -/
 import HitenModel.Lemmas.C09
+import HitenModel.Lemmas.REReal
 import HitenModel.Gen.C09
+import Mathlib.Tactic.LinearCombination
+import Mathlib.Tactic.FieldSimp
+import Mathlib.Tactic.IntervalCases
 
 namespace HitenModel.Props.C09
 open HitenModel HitenModel.C09
@@ -283,11 +287,11 @@ theorem lift_on_section_and_bracketed (H : List K → K) (h0 : K) (brent : K →
     (h : liftPlanePoint H h0 brent P sc plane = Res.ok s) :
     s.get sc = 0 ∧ (s.get sc.planeCoords.1, s.get sc.planeCoords.2) = plane ∧
     ∃ x, s.get sc.missing = x ∧ s = buildState sc plane (otherVals sc x) ∧
-      solveCore (residual H h0 (constraints sc plane) sc.missing.name) brent P = Res.ok x ∧
-      H (place6 s) - h0 = residual H h0 (constraints sc plane) sc.missing.name x := by
+      solveCore (C09.residual H h0 (constraints sc plane) sc.missing.name) brent P = Res.ok x ∧
+      H (place6 s) - h0 = C09.residual H h0 (constraints sc plane) sc.missing.name x := by
   unfold liftPlanePoint solveMissing at h
   simp only at h
-  cases hs : solveCore (residual H h0 (constraints sc plane) sc.missing.name) brent P with
+  cases hs : solveCore (C09.residual H h0 (constraints sc plane) sc.missing.name) brent P with
   | error => rw [hs] at h; cases h
   | none => rw [hs] at h; cases h
   | ok x =>
@@ -296,22 +300,20 @@ theorem lift_on_section_and_bracketed (H : List K → K) (h0 : K) (brent : K →
       subst h
       refine ⟨(buildState_on_section sc plane _).1, (buildState_on_section sc plane _).2, x, ?_, rfl, rfl, ?_⟩
       · cases sc <;> rfl
-      · unfold residual
+      · unfold C09.residual
         rw [residState_eq_place6]
 
 /-- **on the energy level**: if the root finder returns exact zeros of the residual, the lifted point satisfies
 `H = h0` exactly (and in general its energy error is the root finder's residual, previous theorem) -/
 theorem lift_on_energy_level (H : List K → K) (h0 : K) (brent : K → K → Option K) (P : Params K)
     (sc : Sec) (plane : K × K) (s : St K)
-    (hroot : ∀ a b y, brent a b = some y → residual H h0 (constraints sc plane) sc.missing.name y = 0)
+    (hroot : ∀ a b y, brent a b = some y → C09.residual H h0 (constraints sc plane) sc.missing.name y = 0)
     (h : liftPlanePoint H h0 brent P sc plane = Res.ok s) :
     H (place6 s) = h0 := by
   obtain ⟨_, _, x, _, _, hx, he⟩ := lift_on_section_and_bracketed H h0 brent P sc plane s h
-  have hz : residual H h0 (constraints sc plane) sc.missing.name x = 0 := by
+  have hz : C09.residual H h0 (constraints sc plane) sc.missing.name x = 0 := by
     rw [solveCore_eq] at hx
-    split_ifs at hx <;> first
-      | exact hroot _ _ _ ((ofOption_eq_ok _ _).mp hx)
-      | cases hx
+    split_ifs at hx <;> exact hroot _ _ _ ((ofOption_eq_ok _ _).mp hx)
   rw [hz] at he
   exact sub_eq_zero.mp he
 
@@ -320,14 +322,14 @@ exactly then -/
 theorem lift_none_iff (H : List K → K) (h0 : K) (brent : K → K → Option K) (P : Params K)
     (sc : Sec) (plane : K × K) :
     (liftPlanePoint H h0 brent P sc plane = Res.none ↔
-      solveCore (residual H h0 (constraints sc plane) sc.missing.name) brent P = Res.none) ∧
+      solveCore (C09.residual H h0 (constraints sc plane) sc.missing.name) brent P = Res.none) ∧
     liftPlanePoint H h0 brent P sc plane ≠ Res.error ∧
     (toReal4dCm H h0 brent P sc plane = Res.error ↔
-      solveCore (residual H h0 (constraints sc plane) sc.missing.name) brent P = Res.none) := by
-  have hne := solve_never_error (residual H h0 (constraints sc plane) sc.missing.name) brent P
+      solveCore (C09.residual H h0 (constraints sc plane) sc.missing.name) brent P = Res.none) := by
+  have hne := solve_never_error (C09.residual H h0 (constraints sc plane) sc.missing.name) brent P
   unfold toReal4dCm liftPlanePoint solveMissing
   simp only
-  cases hs : solveCore (residual H h0 (constraints sc plane) sc.missing.name) brent P with
+  cases hs : solveCore (C09.residual H h0 (constraints sc plane) sc.missing.name) brent P with
   | error => exact absurd hs hne
   | none => simp
   | ok x => simp
@@ -353,6 +355,110 @@ theorem sectionTo6_spec (H : List K → K) (h0 : K) (brent : K → K → Option 
       · cases s; rfl
       · cases s; cases sc <;> exact hsec
 
+/-! ### the conversion chain -/
+
+section chain
+variable {F : Type} [Field F]
+
+/-- entry codes of the exported complexification matrices: `h = 1/√2`, `i = √-1` -/
+def decodeM (h i : F) : Nat → F
+  | 0 => 0 | 1 => 1 | 2 => h | 3 => i * h | 4 => -(i * h) | _ => 0
+
+def decodeMat (h i : F) (codes : List (List Nat)) : List (List F) := codes.map fun r => r.map (decodeM h i)
+
+/-- **`_solve_real` and `_solve_complex` are mutually inverse** (on the regenerated matrices `_M(mix_pairs)`,
+`_M_inv(mix_pairs)` of the service, in any field with `2h² = 1`, `i² = −1`, e.g. ℂ): both products are the identity
+on every 6-vector. -/
+theorem solve_real_complex_inverse (h i : F) (hh : 2 * h * h = 1) (hi : i * i = -1) (v0 v1 v2 v3 v4 v5 : F) :
+    mulVec6 (decodeMat h i Gen.C09.mCodes) (mulVec6 (decodeMat h i Gen.C09.mInvCodes) [v0, v1, v2, v3, v4, v5])
+      = [v0, v1, v2, v3, v4, v5] ∧
+    mulVec6 (decodeMat h i Gen.C09.mInvCodes) (mulVec6 (decodeMat h i Gen.C09.mCodes) [v0, v1, v2, v3, v4, v5])
+      = [v0, v1, v2, v3, v4, v5] := by
+  constructor <;>
+  · simp only [mulVec6, dot6, decodeMat, decodeM, Gen.C09.mCodes, Gen.C09.mInvCodes, List.map, List.cons.injEq,
+      and_true]
+    refine ⟨?_, ?_, ?_, ?_, ?_, ?_⟩ <;> first
+      | ring1
+      | linear_combination v1 * hh - h * h * v1 * hi
+      | linear_combination v2 * hh - h * h * v2 * hi
+      | linear_combination v4 * hh - h * h * v4 * hi
+      | linear_combination v5 * hh - h * h * v5 * hi
+
+end chain
+
+/-- **chain_inverse_structure**: with every *linear / affine* link of the two chains inverted by its partner
+(`_solve_complex`/`_solve_real`: `solve_real_complex_inverse`; `_local2synodic`/`_synodic2local`: `local_synodic_inverse`;
+`C`/`C⁻¹` of the libration point: measured, C18), `synodic_to_cm ∘ _cm_point_to_synodic_4d` is exactly
+`_solve_real ∘ (lieInv ∘ lieFwd) ∘ _solve_complex`: the round-trip error is the conjugated defect of the two Lie series
+and nothing else (it vanishes identically when `lieInv ∘ lieFwd = id`; with truncated series it is `O(r^(N+1))`, C08 —
+measured by the harness). -/
+theorem chain_inverse_structure {V : Type} (L : Links V)
+    (hC : ∀ z, L.local2modal (L.modal2local z) = z)
+    (hS : ∀ z, L.syn2local (L.local2syn z) = z)
+    (hM : ∀ z, L.solveComplex (L.solveReal z) = z) (z : V) :
+    toCmChain L (toSynodicChain L z) = L.solveReal (L.lieInv (L.lieFwd (L.solveComplex z))) ∧
+    ((∀ w, L.lieInv (L.lieFwd w) = w) → (∀ w, L.solveReal (L.solveComplex w) = w) →
+      toCmChain L (toSynodicChain L z) = z) := by
+  have h1 : toCmChain L (toSynodicChain L z) = L.solveReal (L.lieInv (L.lieFwd (L.solveComplex z))) := by
+    simp only [toCmChain, toSynodicChain, hS, hC, hM]
+  exact ⟨h1, fun hL hM' => by rw [h1, hL, hM']⟩
+
+/-- the whole public round trip on the model: place, convert, convert back, read -/
+theorem roundtrip_of_exact_links {K : Type} [Field K] (L : Links (List K))
+    (hC : ∀ z, L.local2modal (L.modal2local z) = z)
+    (hS : ∀ z, L.syn2local (L.local2syn z) = z)
+    (hM : ∀ z, L.solveComplex (L.solveReal z) = z)
+    (hM' : ∀ w, L.solveReal (L.solveComplex w) = w)
+    (hL : ∀ w, L.lieInv (L.lieFwd w) = w) (s : St K) :
+    read6 (toCmChain L (toSynodicChain L (place6 s))) = s := by
+  rw [((chain_inverse_structure L hC hS hM (place6 s)).2 hL hM')]
+  cases s; rfl
+
+open RE Gen.C09 in
+/-- the traced `_local2synodic_collinear` as a substitution of the six coordinates -/
+noncomputable def synEnv (ρ : Nat → ℝ) : Nat → ℝ
+  | 0 => eval ρ l2s0 | 1 => eval ρ l2s1 | 2 => eval ρ l2s2
+  | 3 => eval ρ l2s3 | 4 => eval ρ l2s4 | 5 => eval ρ l2s5
+  | j => ρ j
+
+open RE Gen.C09 in
+/-- the traced `_synodic2local_collinear` as a substitution of the six coordinates -/
+noncomputable def locEnv (ρ : Nat → ℝ) : Nat → ℝ
+  | 0 => eval ρ s2l0 | 1 => eval ρ s2l1 | 2 => eval ρ s2l2
+  | 3 => eval ρ s2l3 | 4 => eval ρ s2l4 | 5 => eval ρ s2l5
+  | j => ρ j
+
+open RE Gen.C09 in
+/-- **`_synodic2local_collinear` and `_local2synodic_collinear` (traced from the current source) are mutually inverse**
+for every `gamma ≠ 0`, `sign ≠ 0`, all `mu`, `a` and all coordinates (variables: 0..5 coordinates, 6 gamma, 7 mu,
+8 sign, 9 a). -/
+theorem local_synodic_inverse (ρ : Nat → ℝ) (hγ : ρ 6 ≠ 0) (hs : ρ 8 ≠ 0) :
+    (∀ j, j < 6 → locEnv (synEnv ρ) j = ρ j) ∧ (∀ j, j < 6 → synEnv (locEnv ρ) j = ρ j) := by
+  constructor <;> intro j hj <;> interval_cases j <;>
+    simp only [locEnv, synEnv, eval, l2s0, l2s1, l2s2, l2s3, l2s4, l2s5, s2l0, s2l1, s2l2, s2l3, s2l4, s2l5] <;>
+    field_simp <;> ring
+
+open RE Gen.C09 in
+/-- **energy_chain (local part, `…_partial`)**: for the traced `_local2synodic_collinear` with `sign² = 1`, the kinetic
+minus centrifugal part of the CR3BP energy of the synodic state is `γ²·(½|p|² + y·pₓ − x·p_y)` plus terms that depend on the
+*position* only, and the squared distances to the two primaries are `γ²`-scaled local expressions.  Hence
+`(E − E_L)/γ²` is the rotating-frame Hamiltonian of the local coordinates with the standard kinetic part — the `γ²` energy
+scale and the momentum–velocity relation of the chain are right.  Missing for the full `energy_chain`: the Legendre
+expansion of the two `1/r` terms (C07) and the Lie-series remainder (C08); both are measured by the harness. -/
+theorem energy_chain_local_partial (ρ : Nat → ℝ) (hs : ρ 8 * ρ 8 = 1) :
+    let X := synEnv ρ
+    (1 / 2 * (X 3 ^ 2 + X 4 ^ 2 + X 5 ^ 2) - 1 / 2 * (X 0 ^ 2 + X 1 ^ 2)
+      = ρ 6 ^ 2 * (1 / 2 * (ρ 3 ^ 2 + ρ 4 ^ 2 + ρ 5 ^ 2) + ρ 1 * ρ 3 - ρ 0 * ρ 4)
+        - ρ 8 * ρ 6 * (ρ 7 + ρ 9) * ρ 0 - 1 / 2 * (ρ 7 + ρ 9) ^ 2) ∧
+    ((X 0 + ρ 7) ^ 2 + X 1 ^ 2 + X 2 ^ 2 = (ρ 8 * ρ 6 * ρ 0 + ρ 9) ^ 2 + ρ 6 ^ 2 * (ρ 1 ^ 2 + ρ 2 ^ 2)) ∧
+    ((X 0 - (1 - ρ 7)) ^ 2 + X 1 ^ 2 + X 2 ^ 2
+      = (ρ 8 * ρ 6 * ρ 0 + ρ 9 + 1) ^ 2 + ρ 6 ^ 2 * (ρ 1 ^ 2 + ρ 2 ^ 2)) := by
+  simp only [synEnv, eval, l2s0, l2s1, l2s2, l2s3, l2s4, l2s5]
+  refine ⟨?_, ?_, ?_⟩
+  · linear_combination (-(1 / 2) * ρ 6 ^ 2 * (ρ 0 ^ 2 + ρ 1 ^ 2)) * hs
+  · linear_combination (ρ 6 ^ 2 * ρ 1 ^ 2) * hs
+  · linear_combination (ρ 6 ^ 2 * ρ 1 ^ 2) * hs
+
 /-! ### non-vacuity -/
 
 /-- a concrete scripted solve over ℚ: `H = q2² + p3²`, `h0 = 1`, section `q3`, plane point `(1/2, 0)`: the residual
@@ -375,5 +481,23 @@ example : solveCore (K := ℚ) (fun _ => -1) (fun _ _ => some 0) ⟨1, 2, 3, tru
 /-- the symmetric branch is reachable -/
 example : solveCore (K := ℚ) (fun x => -x - 3) (fun a _ => some a) ⟨1, 2, 3, true⟩ = Res.ok (-4) := by
   decide +kernel
+
+/-- the hypotheses of `solve_real_complex_inverse` hold in ℂ with `h = √2/2`, `i = I` -/
+example : ∃ h i : ℂ, 2 * h * h = 1 ∧ i * i = -1 := by
+  refine ⟨((Real.sqrt 2 / 2 : ℝ) : ℂ), Complex.I, ?_, Complex.I_mul_I⟩
+  have h2 : Real.sqrt 2 * Real.sqrt 2 = 2 := Real.mul_self_sqrt (by norm_num)
+  have : (2 : ℝ) * (Real.sqrt 2 / 2) * (Real.sqrt 2 / 2) = 1 := by nlinarith
+  exact_mod_cast this
+
+/-- the hypotheses of `local_synodic_inverse` / `energy_chain_local_partial` hold at the Earth–Moon L1 values -/
+example : ∃ ρ : Nat → ℝ, ρ 6 ≠ 0 ∧ ρ 8 ≠ 0 ∧ ρ 8 * ρ 8 = 1 :=
+  ⟨fun j => if j = 6 then 3 / 20 else -1, by norm_num, by norm_num, by norm_num⟩
+
+/-- a non-trivial instance of `chain_inverse_structure`: shifts on ℤ whose Lie links are *not* mutually inverse leave
+exactly their defect -/
+example :
+    toCmChain (V := ℤ) ⟨(· - 1), (· + 1), (· + 10), (· - 9), (· * 1), (· * 1), (· + 5), (· - 5)⟩
+      (toSynodicChain ⟨(· - 1), (· + 1), (· + 10), (· - 9), (· * 1), (· * 1), (· + 5), (· - 5)⟩ 7) = 7 + 1 := by
+  decide
 
 end HitenModel.Props.C09
